@@ -8,6 +8,7 @@ import (
 	"fmt"
 	"net/http"
 	"net/url"
+	"runtime"
 	"runtime/debug"
 	"sort"
 	"strings"
@@ -21,7 +22,7 @@ import (
 )
 
 const rule = "cases = (trie-grown route set incl. deep backtracking, infix catch-alls, hostnames with and without port, many parameters, fan-out above 50, ignore-trailing-slash routes) x requests that the router serves " +
-	"(direct or ignored trailing slash); each measured with testing.AllocsPerRun(100) after warm-up; distinct by (route set, request); non-trivial when the matched pattern has a wildcard or a hostname or the match is slash-adjusted"
+	"(direct or ignored trailing slash); each measured with testing.AllocsPerRun(100) after warm-up, interleaved with the previous request, and again on a router of its own (other registration order, nothing else served, a quarter with a handler using CloneWith+Close) plus Lookup+Close; distinct by (route set, request); non-trivial when the matched pattern has a wildcard or a hostname or the match is slash-adjusted"
 
 type nullW struct{ h http.Header }
 
@@ -33,12 +34,16 @@ func main() {
 	run := kit.Start("C16", rule)
 	defer run.Finish()
 	debug.SetGCPercent(-1)
-	sets := run.Pick(1200, 15000)
+	sets := run.Pick(1200, 60000)
 	// measurement is per goroutine (AllocsPerRun pins GOMAXPROCS to 1), so cases run sequentially
 	r := run.Rand(1)
 	w := &nullW{h: http.Header{}}
 	measured := 0
 	for s := 0; s < sets; s++ {
+		if s%50 == 49 {
+			// the collector is off during measurements; the routers of finished sets are released here, between sets
+			runtime.GC()
+		}
 		pf := gen.DefaultProfile
 		switch r.IntN(6) {
 		case 0:
